@@ -65,10 +65,11 @@ fn holes(t: &str) -> usize {
 fn level(prev: &[String]) -> (Vec<String>, Vec<String>) {
     // fillers derived from the previous level: the programs themselves, and the two call
     // wrappers around them
+    // `_v2` starts with an underscore (a legal identifier start that is not a letter);
     // `w` is used both as a variable and as a function (the two namespaces are separate: a context
     // can define either, both or neither)
     let mut fillers: Vec<String> = vec![
-        "v1".into(), "v2".into(), "g1(v1)".into(), "v2.g2(v1)".into(), "g1(v2)".into(), "v1.g2(v2)".into(), ".g1(v1)".into(), ".v2".into(), ".g1(.v1)".into(),
+        "v1".into(), "_v2".into(), "g1(v1)".into(), "_v2.g2(v1)".into(), "g1(_v2)".into(), "v1.g2(_v2)".into(), ".g1(v1)".into(), "._v2".into(), ".g1(.v1)".into(),
         "w".into(), "w(v1)".into(), "w(w)".into(), "v1.w(1)".into(),
     ];
     let nbase = fillers.len();
@@ -76,7 +77,7 @@ fn level(prev: &[String]) -> (Vec<String>, Vec<String>) {
         fillers.push(format!("({})", p));
         fillers.push(format!("g1({})", p));
         fillers.push(format!("({}).g2(v1)", p));
-        fillers.push(format!("v2.g2({})", p));
+        fillers.push(format!("_v2.g2({})", p));
     }
     let mut out = vec![];
     let mut out_sib = vec![];
@@ -113,7 +114,7 @@ struct Ctx {
 }
 
 fn contexts() -> Vec<Ctx> {
-    let names = ["v1", "v2", "g1", "g2"];
+    let names = ["v1", "_v2", "g1", "g2"];
     let mut v = vec![];
     for profile in ["ints", "collections"] {
         for mask in 0..64u32 {
@@ -139,13 +140,13 @@ fn contexts() -> Vec<Ctx> {
                 }
                 match (*n, profile) {
                     ("v1", "ints") => ctx.add_variable_from_value("v1", 1i64),
-                    ("v2", "ints") => ctx.add_variable_from_value("v2", 2i64),
+                    ("_v2", "ints") => ctx.add_variable_from_value("_v2", 2i64),
                     ("v1", _) => {
                         let inner = MV::Map(vec![(MK::Str("b".into()), MV::List(vec![MV::Int(1)]))]);
                         let m = MV::Map(vec![(MK::Str("a".into()), inner), (MK::Str("f".into()), MV::Int(1))]);
                         ctx.add_variable_from_value("v1", m.to_value());
                     }
-                    ("v2", _) => ctx.add_variable_from_value("v2", MV::List(vec![MV::Int(1), MV::Int(2)]).to_value()),
+                    ("_v2", _) => ctx.add_variable_from_value("_v2", MV::List(vec![MV::Int(1), MV::Int(2)]).to_value()),
                     ("g1", _) => ctx.add_function("g1", |a: cel_interpreter::Value| -> Result<cel_interpreter::Value, ExecutionError> { Ok(a) }),
                     ("g2", _) => ctx.add_function("g2", |cel_interpreter::extractors::This(t): cel_interpreter::extractors::This<cel_interpreter::Value>, _a: cel_interpreter::Value| -> Result<cel_interpreter::Value, ExecutionError> { Ok(t) }),
                     _ => {}
